@@ -248,6 +248,11 @@ theorem KRel.cancelKindFor_fst {w0 w : World} (h : KRel S w0 w) (p : Pid) (act :
   unfold Sim.cancelKindFor
   exact KRel.foldl (fun w q => by krel) _ h
 macro_rules | `(tactic| krel_step) => `(tactic| with_reducible apply KRel.cancelKindFor_fst)
+theorem KRel.cancelUserAll_fst {w0 w : World} (h : KRel S w0 w) :
+    KRel S w0 (cancelUserAll w).1 := by
+  unfold Sim.cancelUserAll
+  exact KRel.foldl (fun w q => by krel) _ h
+macro_rules | `(tactic| krel_step) => `(tactic| with_reducible apply KRel.cancelUserAll_fst)
 
 theorem KRel.recordRes {w0 w : World} (h : KRel S w0 w) (r : Nat) : KRel S w0 (recordRes w r) := by
   unfold Sim.recordRes; krel
